@@ -13,6 +13,7 @@
 #include <boost/gil.hpp>
 #include <boost/gil/extension/dynamic_image/any_image.hpp>
 #include <tuple>
+#include <algorithm>
 #include <functional>
 #include <time.h>
 
@@ -161,6 +162,8 @@ static outcome run_once(input_t const& in, dev_kind d, const char* entry, pats_t
         case D_NAME: {
             c11::scratch_file sf(*in.bytes, in.ext);
             std::string path = sf.path;
+            // the real file is read through stdio: countable at the wrapped getc/fread (same budget)
+            c11::arm_budget(&o.ops, in.fmt, DEV_NAME[d], entry, in.bytes->size(), budget_pixels(in.declared));
             c11::prefill_stack(p.stack);
             fn(path, o);
             break;
@@ -212,7 +215,7 @@ static outcome run_entry(input_t const& in, dev_kind d, const char* entry, Fn&& 
     // the fixed part of the header (pixel rows of <= 8 bytes are bulk reads; a reader that tolerates a short row is
     // counted under ok-on-truncated, not alarmed).
     bool all_fields = strcmp(entry, "info") == 0 || in.bytes->size() < in.fixed_hdr;
-    if (g_strict_fields && all_fields && d != D_NAME && a.cls == c11::OC_OK && a.ops.short_small > 0)
+    if (g_strict_fields && all_fields && a.cls == c11::OC_OK && a.ops.short_small > 0)
         vh::viol("short-field-read-accepted." + where,
                  vh::cat("a read of <= 8 bytes came back short (", a.ops.short_small, " such reads; input ", in.bytes->size(),
                          " bytes) and the reader returned normally: [", a.str(), "]"));
@@ -416,9 +419,10 @@ template <class F> static void run_input(std::string const& bytes, bool truncate
     uint64_t salt = c11::hash_raw(bytes.data(), bytes.size(), 1);
     c11::arm_cpu_net(200);
     g_info_declared = 0;
+    // the std::istream device first: its counters have seen every kind of spin since the first version of the monitor
+    run_device<F>(in, D_ISTREAM, salt, with_subrect);
     if (F::has_FILE) run_device<F>(in, D_FILE, salt, with_subrect);
     if (with_filename) run_device<F>(in, D_NAME, salt, with_subrect);
-    run_device<F>(in, D_ISTREAM, salt, with_subrect);
 }
 
 static std::string hex_head(std::string const& b, size_t n = 48) {
@@ -505,6 +509,13 @@ static void mut_case_equiv(std::string const& cls_tail, std::string const& id, s
 }
 #define MUTEQ(Img, cls, id, base, ...) do { if (c11_want_next()) mut_case_equiv<F, Img>(cls, id, base, __VA_ARGS__); else c11_skip_case(); } while (0)
 
+// "valid-shaped but unusual": an enumerated / count-like / bit-field header field with every value of a small range
+// (the boundary table only has 0 / 1 / 2 / 7 / 8 ... / all-ones)
+struct enum_field_t { c11::field_t f; std::vector<uint64_t> vals; };
+static std::vector<uint64_t> vrange(uint64_t a, uint64_t b, std::initializer_list<uint64_t> more = {}) {
+    std::vector<uint64_t> v; for (uint64_t x = a; x <= b; ++x) v.push_back(x); v.insert(v.end(), more.begin(), more.end()); return v;
+}
+
 // the generic mutation families over a list of seeds
 template <class F> static void generic_families(std::vector<seed_t> const& seeds) {
     bool T = vh::thorough();
@@ -534,6 +545,17 @@ template <class F> static void generic_families(std::vector<seed_t> const& seeds
                     return F::fixup(b);
                 });
         }
+    }
+    // (ii-b) every enumerated / count-like / bit-field header field x every value of its small range
+    for (auto const& s : seeds) {
+        if (!T && !s.rep) continue;
+        for (auto const& e : F::enum_fields(s))
+            for (uint64_t v : e.vals)
+                MUT(vh::cat("enum.", e.f.name), vh::cat(s.name, ":", e.f.name, "=", v), false, true, [&] {
+                    std::string b = s.bytes;
+                    if (e.f.big_endian) c11::put_be(b, e.f.off, e.f.width, v); else c11::put_le(b, e.f.off, e.f.width, v);
+                    return F::fixup(b);
+                });
     }
     // (iv) seeded random multi-byte mutations
     for (auto const& s : seeds) {
@@ -625,6 +647,22 @@ struct F_bmp {
     static uint64_t declared_slack(std::string const&) { return 0; }
     static size_t header_len(seed_t const&) { return 70; }
     static std::string fixup(std::string const& b) { return b; }
+    static std::vector<enum_field_t> enum_fields(seed_t const& s) {
+        std::vector<enum_field_t> v;
+        uint32_t hs = (uint32_t)c11::get_le(s.bytes, 14, 4);
+        v.push_back({ { "header_size", 14, 4, false }, { 12, 16, 39, 40, 41, 52, 56, 64, 108, 124, 125 } });
+        if (hs == 12) {
+            v.push_back({ { "os2_bpp", 24, 2, false }, vrange(0, 33) });
+            v.push_back({ { "os2_planes", 22, 2, false }, vrange(0, 3) });
+        } else {
+            v.push_back({ { "bpp", 28, 2, false }, vrange(0, 33, { 48, 64 }) });
+            v.push_back({ { "compression", 30, 4, false }, vrange(0, 8) });
+            v.push_back({ { "planes", 26, 2, false }, vrange(0, 3) });
+            v.push_back({ { "num_colors", 46, 4, false }, vrange(0, 17, { 31, 32, 33, 63, 64, 65, 254, 255, 256, 257 }) });
+            v.push_back({ { "num_important", 50, 4, false }, vrange(0, 3, { 256, 257 }) });
+        }
+        return v;
+    }
     static std::vector<c11::field_t> fields(seed_t const& s) {
         std::vector<c11::field_t> f = { { "magic", 0, 2, false }, { "filesize", 2, 4, false }, { "reserved1", 6, 2, false }, { "reserved2", 8, 2, false },
                                         { "offset", 10, 4, false }, { "header_size", 14, 4, false } };
@@ -722,6 +760,7 @@ static std::string bmp_rle(int w, int h, bool rle4, int max_index, uint64_t seed
 static bmp_spec spec(int w, int h, int bpp, int comp) { bmp_spec s; s.w = w; s.h = h; s.bpp = bpp; s.compression = comp; return s; }
 
 static std::vector<seed_t> g_seeds;
+static std::string bmp_with_masks(int bpp, int compression, int header_size, const uint32_t m[4], uint64_t seed, bool ones);
 static void build_seeds() {
     auto& v = g_seeds;
     // crafted small files: every variant, small enough for complete truncation enumeration
@@ -740,6 +779,10 @@ static void build_seeds() {
     { bmp_spec s = spec(4, 3, 24, 0); s.data = bmp_raw_rows(4, 3, 24, 0, 13); s.topdown = true; add_seed(v, "c-rgb24-4x3-topdown", "rgb24", bmp_build(s, 13), 0, false); }
     { bmp_spec s = spec(3, 2, 32, 0); s.header_size = 108; s.data = bmp_raw_rows(3, 2, 32, 0, 14); add_seed(v, "c-rgb32-3x2-v4", "rgb32-v4", bmp_build(s, 14), 1, true); }
     { bmp_spec s = spec(3, 2, 32, 3); s.masks[0] = 0xFF0000; s.masks[1] = 0xFF00; s.masks[2] = 0xFF; s.data = bmp_raw_rows(3, 2, 32, 0, 15); add_seed(v, "c-bf32-3x2", "bitfield32", bmp_build(s, 15), 1, false); }
+    // layout features GIL's writer never produces: pixel data away from the headers, masks in a v3 header
+    { bmp_spec s = spec(4, 3, 24, 0); s.gap = 10; s.data = bmp_raw_rows(4, 3, 24, 0, 16); add_seed(v, "c-rgb24-4x3-gap", "rgb24", bmp_build(s, 16), 0, false); }
+    { uint32_t m[4] = { 0xF800, 0x07E0, 0x001F, 0 }; add_seed(v, "c-bf565-5x3-v3hdr", "bitfield565", bmp_with_masks(16, 3, 56, m, 17, false), 0, false); }
+    { uint32_t m[4] = { 0x7C00, 0x03E0, 0x001F, 0x8000 }; add_seed(v, "c-abf1555-5x3", "bitfield555", bmp_with_masks(16, 6, 40, m, 18, false), 0, false); }
     // files written by GIL itself, every pixel type its BMP writer supports
     gil::image_write_info<gil::bmp_tag> wi;
     add_seed(v, "w-rgb8-1x1", "rgb24", written(gil::const_view(seeded_image<gil::rgb8_image_t>(1, 1, 21)), wi), 0, false);
@@ -761,8 +804,80 @@ static void build_seeds() {
     for (auto& x : fx) add_fixture(v, "bmp", x.f, x.variant, x.kind, x.rep);
 }
 
+// ---- bit-field masks: valid-shaped but unusual --------------------------------------------------------
+// a BMP whose masks are carried the way real writers do it: after a 40-byte header (BI_BITFIELDS: 3 masks,
+// BI_ALPHABITFIELDS: 4 masks), or inside a v2 (52) / v3 (56) / v4 (108) / v5 (124) header
+static std::string bmp_with_masks(int bpp, int compression, int header_size, const uint32_t m[4], uint64_t seed, bool ones) {
+    bmp_spec s = spec(5, 3, bpp, compression); s.header_size = header_size;
+    s.data = bmp_raw_rows(5, 3, bpp, 0, seed); if (ones) for (auto& c : s.data) c = (char)0xFF;
+    int nm = compression == 6 ? 4 : 3;
+    std::string b;
+    if (header_size == 40) {
+        // bmp_build only knows the classic "40 + 3 masks" layout: build without masks and splice them in
+        bmp_spec t = s; t.compression = 0; b = bmp_build(t, seed);
+        std::string masks; for (int k = 0; k < nm; ++k) c11::app_le(masks, 4, m[k]);
+        b.insert(54, masks);
+        c11::put_le(b, 30, 4, (uint64_t)compression);
+        c11::put_le(b, 10, 4, c11::get_le(b, 10, 4) + masks.size()); c11::put_le(b, 2, 4, b.size());
+    } else {
+        bmp_spec t = s; t.compression = 0; b = bmp_build(t, seed);
+        c11::put_le(b, 30, 4, (uint64_t)compression);
+        for (int k = 0; k < 4 && 54 + 4 * k + 4 <= 14 + header_size; ++k) c11::put_le(b, 54 + 4 * k, 4, m[k]);
+    }
+    return b;
+}
+static uint32_t mask_of(int width, int shift) { return width >= 32 ? 0xFFFFFFFFu << shift : ((1u << width) - 1u) << shift; }
+static void bitfield_masks() {
+    // (1) every split of the 16 bits of a pixel into three contiguous masks, red in the high bits; every fifth split in all six orders
+    int idx = 0;
+    for (int w1 = 1; w1 <= 14; ++w1) for (int w2 = 1; w1 + w2 <= 15; ++w2) {
+        int w3 = 16 - w1 - w2; ++idx;
+        int perms[6][3] = { { 0, 1, 2 }, { 0, 2, 1 }, { 1, 0, 2 }, { 1, 2, 0 }, { 2, 0, 1 }, { 2, 1, 0 } };
+        for (int pm = 0; pm < (idx % 5 == 0 ? 6 : 1); ++pm) {
+            int w[3] = { w1, w2, w3 };
+            // position k (from the top) holds channel perms[pm][k]
+            uint32_t m[4] = { 0, 0, 0, 0 }; int top = 16;
+            for (int k = 0; k < 3; ++k) { int ch = perms[pm][k]; top -= w[ch]; m[ch] = mask_of(w[ch], top); }
+            MUT("mask-split16", vh::cat(w1, "-", w2, "-", w3, "-order", pm), false, true, [&] { return bmp_with_masks(16, 3, 40, m, 300 + idx, (idx & 1) != 0); });
+        }
+    }
+    // (2) three masks that leave bits unused (x-5-5-5, 4-4-4 ...), widths from a small set, packed from bit 0 and from bit 15
+    { int ws[] = { 1, 2, 4, 5, 6, 8, 9, 10, 12 }; int k = 0;
+      for (int a : ws) for (int b2 : ws) for (int c : ws) {
+          if (a + b2 + c >= 16) continue; ++k;
+          uint32_t lo[4] = { mask_of(a, b2 + c), mask_of(b2, c), mask_of(c, 0), 0 };
+          int pad = 16 - a - b2 - c;
+          uint32_t hi[4] = { mask_of(a, b2 + c + pad), mask_of(b2, c + pad), mask_of(c, pad), 0 };
+          if (k % 2) MUT("mask-gap16", vh::cat(a, "-", b2, "-", c, "-low"), false, true, [&] { return bmp_with_masks(16, 3, 40, lo, 400 + k, true); });
+          else MUT("mask-gap16", vh::cat(a, "-", b2, "-", c, "-high"), false, true, [&] { return bmp_with_masks(16, 3, 40, hi, 400 + k, true); });
+      } }
+    // (3) 32-bit pixels: three and four masks of unusual widths (10-10-10, 11-11-10, 16-8-8, 2-10-10-10 ...)
+    { int ws[] = { 1, 2, 5, 8, 9, 10, 11, 12, 16 }; int k = 0;
+      for (int a : ws) for (int b2 : ws) for (int c : ws) {
+          if (a + b2 + c > 32) continue; ++k;
+          if (k % 3 != 0 && !(a == 8 && b2 == 8 && c == 8) && !(a == 10 && b2 == 10)) continue;        // one triple in three, plus the common ones
+          uint32_t m[4] = { mask_of(a, b2 + c), mask_of(b2, c), mask_of(c, 0), 0 };
+          int al = 32 - a - b2 - c; if (al > 0) m[3] = mask_of(al, a + b2 + c);
+          MUT("mask-split32", vh::cat(a, "-", b2, "-", c), false, true, [&] { return bmp_with_masks(32, 3, 40, m, 500 + k, true); });
+          if (k % 6 == 0) MUT("mask-split32", vh::cat(a, "-", b2, "-", c, "-alpha", al), false, true, [&] { return bmp_with_masks(32, 6, 40, m, 520 + k, true); });
+      } }
+    // (4) non-contiguous, overlapping, wider-than-the-pixel and single-bit masks
+    uint32_t odd[][4] = { { 0xF0F0, 0x0F00, 0x000F, 0 }, { 0xAAAA, 0x5555, 0x0001, 0 }, { 0xFF00, 0x0FF0, 0x00FF, 0 }, { 0xFFFF, 0xFFFF, 0xFFFF, 0 }, { 0x8000, 0x0001, 0x0180, 0 },
+                          { 0x7C00, 0x03E0, 0x001F, 0x8000 }, { 0xF800, 0x07E0, 0x001F, 0 }, { 0x001F, 0x07E0, 0xF800, 0 }, { 0xFFC0, 0x0038, 0x0007, 0 }, { 0x0007, 0x0038, 0xFFC0, 0 },
+                          { 0xFF800000u, 0x007FF000, 0x00000FFF, 0 }, { 0x3FF00000, 0x000FFC00, 0x000003FF, 0xC0000000u }, { 0x00010000, 0x00020000, 0x00040000, 0 },
+                          { 0x1F0000, 0x3E0, 0x1F, 0 }, { 0x0100, 0x0010, 0x0001, 0 }, { 0x00FF00FF, 0xFF00FF00u, 0x0000FFFF, 0 } };
+    for (int k = 0; k < 16; ++k) for (int bpp : { 16, 32 }) for (int comp : { 3, 6 })
+        MUT("mask-odd", vh::cat("odd", k, "-bpp", bpp, "-comp", comp), false, true, [&] { return bmp_with_masks(bpp, comp, 40, odd[k], 600 + k, true); });
+    // (5) the same masks carried by the v2 / v3 / v4 / v5 headers, BI_BITFIELDS and BI_ALPHABITFIELDS, and masks present while compression says BI_RGB
+    uint32_t common[][4] = { { 0xF800, 0x07E0, 0x001F, 0 }, { 0x7C00, 0x03E0, 0x001F, 0x8000 }, { 0xFFC0, 0x0038, 0x0007, 0 }, { 0x0F00, 0x00F0, 0x000F, 0xF000 },
+                             { 0x00FF0000, 0x0000FF00, 0x000000FF, 0xFF000000u }, { 0x3FF00000, 0x000FFC00, 0x000003FF, 0xC0000000u }, { 0xFFE00000u, 0x001FFC00, 0x000003FF, 0 } };
+    for (int k = 0; k < 7; ++k) for (int hs : { 40, 52, 56, 108, 124 }) for (int bpp : { 16, 32 }) for (int comp : { 0, 3, 6 })
+        MUT("mask-header", vh::cat("masks", k, "-hs", hs, "-bpp", bpp, "-comp", comp), false, true, [&] { return bmp_with_masks(bpp, comp, hs, common[k], 700 + k, k % 2 == 0); });
+}
+
 // targeted palette / run-length / offset corruptions
 static void targeted() {
+    bitfield_masks();
     // palette shorter than the largest index (F8)
     for (int bpp : { 1, 4, 8 }) for (int nc : { 1, 2, 3, 15 }) {
         if (nc >= (1 << bpp)) continue;
@@ -924,6 +1039,7 @@ struct F_pnm {
     static uint64_t declared_slack(std::string const&) { return 0; }
     static size_t header_len(seed_t const&) { return 24; }
     static std::string fixup(std::string const& b) { return b; }
+    static std::vector<enum_field_t> enum_fields(seed_t const&) { return {}; }     // textual header: see header_text() / maxval_powers()
     static std::vector<c11::field_t> fields(seed_t const&) { return {}; }      // textual header: see header_text()
 };
 typedef F_pnm F;
@@ -953,6 +1069,20 @@ static void build_seeds() {
         add_seed(v, vh::cat("c-P", t, "-17x3-comments"), vh::cat("P", t), pnm_build(t, "17", "3", "255", 17, 3, 40 + t, true), t, false);
         add_seed(v, vh::cat("c-P", t, "-1x1"), vh::cat("P", t), pnm_build(t, "1", "1", "255", 1, 1, 50 + t, false), t, false);
     }
+    // header syntax that GIL's writer never emits: comments in every legal place (after the magic number, between and after
+    // the numbers, several in a row, at the very end of the header), CR / CRLF line ends, tabs and runs of blanks
+    for (int t = 1; t <= 6; ++t) {
+        bool mv = !(t == 1 || t == 4);
+        std::string body = pnm_build(t, "5", "2", "255", 5, 2, 66 + t, false);
+        body = body.substr(body.find(mv ? "255\n" : "2\n") + (mv ? 4 : 2));     // the raster of a plain 5x2 file
+        add_seed(v, vh::cat("c-P", t, "-comments-everywhere"), vh::cat("P", t, "-syntax"),
+                 vh::cat("P", t, "#c0\n#c1 after magic\n# c2\n5#c3 glued\n#c4\n#c5\n 2 #c6\n", mv ? "#c7\n255#c8 end of header\n" : "") + body, t, false);
+        add_seed(v, vh::cat("c-P", t, "-crlf-tabs"), vh::cat("P", t, "-syntax"),
+                 vh::cat("P", t, "\r\n# crlf comment\r\n5\t\t 2\r", mv ? "\n\t255\n" : "\n") + body, t, false);
+        add_seed(v, vh::cat("c-P", t, "-cr-comment"), vh::cat("P", t, "-syntax"),
+                 vh::cat("P", t, " # comment ended by CR only\r5 2", mv ? " 255 " : " ") + body, t, false);
+    }
+    add_seed(v, "c-P2-comment-in-raster", "P2-syntax", "P2\n3 2\n255\n1 2 # inside the raster\n3\n4 5 6\n# at the end", 2, false);
     add_seed(v, "c-P2-max15", "P2", pnm_build(2, "4", "2", "15", 4, 2, 60, false), 2, false);
     add_seed(v, "c-P5-max1", "P5", pnm_build(5, "4", "2", "1", 4, 2, 61, false), 5, false);
     gil::image_write_info<gil::pnm_tag> wi;
@@ -992,7 +1122,15 @@ static void header_text() {
     for (int k = 0; k < 13; ++k)
         MUT("field.type", vh::cat("type", k), false, true, [&] { return std::string(types[k]) + "\n3 2\n255\n" + std::string(18, 'x'); });
 }
+// maxval: every power of two and its neighbours (valid-shaped values that the boundary table skips)
+static void maxval_powers() {
+    std::vector<unsigned> vals;
+    for (int k = 0; k <= 16; ++k) for (int d = -1; d <= 1; ++d) { long x = (1L << k) + d; if (x >= 0 && x <= 65536 && std::find(vals.begin(), vals.end(), (unsigned)x) == vals.end()) vals.push_back((unsigned)x); }
+    for (int t : { 2, 3, 5, 6 }) for (unsigned mv : vals)
+        MUT("maxval-pow2", vh::cat("P", t, "-max", mv), false, true, [&] { return pnm_build(t, "4", "2", vh::cat(mv), 4, 2, 85 + t, false); });
+}
 static void targeted() {
+    maxval_powers();
     header_text();
     // digit strings longer than the reader's 16-byte number buffer (F13), in every ASCII type and position
     for (int t = 1; t <= 3; ++t) for (int digits : { 14, 15, 16, 17, 20, 32, 64, 200, 5000 }) for (int where = 0; where < 3; ++where)
@@ -1063,6 +1201,12 @@ struct F_tga {
     static uint64_t declared_slack(std::string const&) { return 0; }
     static size_t header_len(seed_t const&) { return 18; }
     static std::string fixup(std::string const& b) { return b; }
+    static std::vector<enum_field_t> enum_fields(seed_t const&) {
+        return { { { "descriptor", 17, 1, false }, vrange(0, 255) }, { { "bpp", 16, 1, false }, vrange(0, 33, { 48, 64, 255 }) },
+                 { { "imgtype", 2, 1, false }, vrange(0, 12, { 32, 33, 128, 255 }) }, { { "cmaptype", 1, 1, false }, vrange(0, 3) },
+                 { { "cmapdepth", 7, 1, false }, { 0, 8, 15, 16, 24, 32 } }, { { "idlen", 0, 1, false }, vrange(0, 4, { 26, 255 }) },
+                 { { "cmaplen", 5, 2, false }, vrange(0, 3, { 16, 256 }) } };
+    }
     static std::vector<c11::field_t> fields(seed_t const&) {
         return { { "idlen", 0, 1, false }, { "cmaptype", 1, 1, false }, { "imgtype", 2, 1, false }, { "cmapstart", 3, 2, false }, { "cmaplen", 5, 2, false },
                  { "cmapdepth", 7, 1, false }, { "xorigin", 8, 2, false }, { "yorigin", 10, 2, false }, { "width", 12, 2, false }, { "height", 14, 2, false },
@@ -1106,6 +1250,18 @@ static void build_seeds() {
     add_seed(v, "c-rle24-idfield-4x4", "rle24", tga_header(7, 0, 10, 0, 0, 0, 4, 4, 24, 0) + tga_rle(4, 4, 3, 77), 0, false);
     add_seed(v, "c-raw24-1x1", "raw24", tga_header(0, 0, 2, 0, 0, 0, 1, 1, 24, 0) + tga_raw(1, 1, 3, 78), 0, false);
     add_seed(v, "c-rle32-1x1", "rle32", tga_header(0, 0, 10, 0, 0, 0, 1, 1, 32, 8) + tga_rle(1, 1, 4, 79), 1, false);
+    // layout features GIL's writer never produces: colour map present on a true-colour image (legal: the reader must skip or reject it),
+    // image id + colour map together, TGA 2.0 extension area + footer after the pixels
+    { std::string b = tga_header(5, 1, 2, 0, 4, 24, 4, 3, 24, 0); vh::rng r(86); for (int i = 0; i < 12; ++i) b.push_back((char)r.next());
+      add_seed(v, "c-raw24-id-cmap-4x3", "raw24-cmap", b + tga_raw(4, 3, 3, 86), 0, false); }
+    { std::string b = tga_header(0, 1, 10, 0, 2, 32, 4, 3, 32, 8); b += std::string(8, '\x55');
+      add_seed(v, "c-rle32-cmap-4x3", "rle32-cmap", b + tga_rle(4, 3, 4, 87), 1, false); }
+    { std::string b = tga_header(0, 0, 2, 0, 0, 0, 4, 3, 24, 0) + tga_raw(4, 3, 3, 88); size_t ext = b.size();
+      b += std::string(2, '\0'); c11::put_le(b, ext, 2, 495); b += std::string(493, 'e');
+      std::string foot; c11::app_le(foot, 4, ext); c11::app_le(foot, 4, 0); foot += "TRUEVISION-XFILE."; foot.push_back('\0');
+      add_seed(v, "c-raw24-ext-footer-4x3", "raw24-tga2", b + foot, 0, false); }
+    { std::string foot; c11::app_le(foot, 4, 0); c11::app_le(foot, 4, 0); foot += "TRUEVISION-XFILE."; foot.push_back('\0');
+      add_seed(v, "c-rle24-footer-9x5", "rle24-tga2", tga_header(0, 0, 10, 0, 0, 0, 9, 5, 24, 0) + tga_rle(9, 5, 3, 89) + foot, 0, false); }
     gil::image_write_info<gil::targa_tag> wi;
     add_seed(v, "w-rgb8-9x7", "raw24", written(gil::const_view(seeded_image<gil::rgb8_image_t>(9, 7, 81)), wi), 0, false);
     add_seed(v, "w-rgba8-9x7", "raw32", written(gil::const_view(seeded_image<gil::rgba8_image_t>(9, 7, 82)), wi), 1, false);
@@ -1125,7 +1281,20 @@ static void build_seeds() {
         add_seed(v, vh::cat("head-", x.f), vh::cat("raw", x.bpp), s, x.bpp == 32, false);
     }
 }
+// every pixel depth 1..32 with every image type (raw / RLE x colour-mapped / true-colour / grey), descriptor alpha bits consistent and not
+static void depth_by_type() {
+    for (int type : { 0, 1, 2, 3, 9, 10, 11 }) for (int bpp = 1; bpp <= 32; ++bpp) for (int alpha : { 0, 8 }) {
+        if (alpha && bpp != 16 && bpp != 32) continue;
+        MUT("depth-by-type", vh::cat("type", type, "-bpp", bpp, "-alpha", alpha), false, true, [&] {
+            int bytespp = (bpp + 7) / 8; bool cm = type == 1 || type == 9;
+            std::string b = tga_header(0, cm ? 1 : 0, type, 0, cm ? 4 : 0, cm ? 24 : 0, 4, 3, bpp, alpha);
+            if (cm) b += std::string(12, '\x33');
+            return b + ((type & 8) ? tga_rle(4, 3, bytespp, 97) : tga_raw(4, 3, bytespp, 97));
+        });
+    }
+}
 static void targeted() {
+    depth_by_type();
     // RLE packets overrunning the image (F12)
     struct { const char* id; int w, h; std::vector<int> packets; } rc[] = {
         { "run128-into-1x1", 1, 1, { 0xFF } }, { "run2-into-1x1", 1, 1, { 0x81 } }, { "raw128-into-1x1", 1, 1, { 0x7F } }, { "raw2-into-1x1", 1, 1, { 0x01 } },
